@@ -111,7 +111,7 @@ func c19gNoReturnBeforeUse(c *eng.Ctx) {
 	}
 	c.Clause("R2", "C19.2")
 	cts := eng.Calls(f, `vault\.\(\*Core\)\.CheckToken$`)
-	uses := eng.Calls(f, fwdPat(f, useTokenPat))
+	uses := c19Calls(c19Sites(f, useTokenPat))
 	if !c.Floor(f, "CheckToken call", len(cts), 1) || !c.Floor(f, "UseToken call", len(uses), 1) {
 		return
 	}
@@ -148,7 +148,7 @@ func c19gSiblingEndpoints(c *eng.Ctx) {
 		action   func(f *ssa.Function) []ssa.Instruction
 	}{
 		{"vault.(*Core).sealInitCommon", "seal", func(f *ssa.Function) []ssa.Instruction {
-			return eng.AsInstrs(eng.Calls(f, `vault\.\(\*Core\)\.sealInternal$`))
+			return c02MaySinks(f, `vault\.\(\*Core\)\.sealInternal$`)
 		}},
 		{"vault.(*Core).StepDown", "step-down", func(f *ssa.Function) []ssa.Instruction {
 			return eng.Instrs(f, func(in ssa.Instruction) bool { _, ok := in.(*ssa.Select); return ok })
@@ -159,13 +159,14 @@ func c19gSiblingEndpoints(c *eng.Ctx) {
 			continue
 		}
 		c.Clause("R2", "C19.7")
-		uses := eng.Calls(f, `vault\.\(\*TokenStore\)\.UseToken$`)
-		verdict := eng.AsInstrs(eng.Calls(f, `vault\.\(\*Core\)\.performPolicyChecks$`))
+		useSites := c19Sites(f, useTokenPat)
+		uses := c19Calls(useSites)
+		verdict := c02MaySinks(f, `vault\.\(\*Core\)\.performPolicyChecks$`)
 		action := h.action(f)
 		if !c.Floor(f, "UseToken call", len(uses), 1) || !c.Floor(f, "performPolicyChecks call", len(verdict), 1) || !c.Floor(f, h.what+" action", len(action), 1) {
 			continue
 		}
-		use := eng.GCallOK(f, `vault\.\(\*TokenStore\)\.UseToken$`)
+		use := c19OK(useTokenPat, useSites)
 		counted := eng.Or(eng.Guard{Desc: use.Desc, Edges: use.Edges}, eng.G(f, `^vault\.\(\*Core\)\.fetchACLTokenEntryAndEntity\(\)#1 == nil$`, true))
 		c.Cut(f, "policy verdict (performPolicyChecks)", verdict, counted, nil)
 		c.Cut(f, h.what, action, counted, nil)
@@ -317,7 +318,7 @@ func c19gInitialLimit(c *eng.Ctx) {
 		return
 	}
 	c.Clause("R3", "C19.8")
-	create := eng.AsInstrs(eng.Calls(f, `vault\.\(\*TokenStore\)\.create$`))
+	create := c02MaySinks(f, `vault\.\(\*TokenStore\)\.create$`)
 	st := eng.Stores(f, `\.NumUses$`)
 	if !c.Floor(f, "tokenStore.create", len(create), 1) || !c.Floor(f, "stores to the entry's NumUses", len(st), 1) {
 		return
@@ -443,21 +444,25 @@ func c19gLockedStoresAreLockedReads(c *eng.Ctx) {
 		if !eng.InPkg(fn, "vault") || len(fn.Blocks) == 0 {
 			continue
 		}
-		pat := fwdPat(fn, writers)
-		stores := eng.Calls(fn, pat)
-		if len(stores) == 0 {
+		storeSites := c19Sites(fn, writers)
+		if len(storeSites) == 0 {
 			continue
 		}
 		held := eng.MustHold(fn, tokenLockCall("Lock"), tokenLockCall("Unlock"))
 		entered := heldByEveryCaller(c, fn) // a "...Locked" body: the caller holds the lock over the whole function
-		for _, s := range stores {
+		for _, ss := range storeSites {
+			s := ss.At
 			if !entered && !held(s) {
 				continue
 			}
-			arg := fwdArg(fn, writers, s, 2)
+			arg, argFr := ss.Arg(2)
 			if arg == nil {
 				continue
 			}
+			if rv, rfr := nfResolveParam(arg, argFr); rv != nil {
+				arg, argFr = rv, rfr
+			}
+			_ = argFr
 			type src struct {
 				v    ssa.Value
 				held eng.HeldFunc
@@ -521,7 +526,7 @@ func c19gParentIsLive(c *eng.Ctx) {
 	const live = `^call:vault\.\(\*TokenStore\)\.Lookup#0$`
 	if f := c.Fn("vault.(*TokenStore).handleCreateCommon"); f != nil {
 		c.Clause("R5", "C19.4")
-		create := eng.AsInstrs(eng.Calls(f, `vault\.\(\*TokenStore\)\.create$`))
+		create := c02MaySinks(f, `vault\.\(\*TokenStore\)\.create$`)
 		guards := eng.EdgeIfs(eng.CondEdges(f, `^0 < .*\.NumUses$`, false))
 		if c.Floor(f, "use-limit guard on the parent", len(guards), 1) && c.Floor(f, "ts.create", len(create), 1) {
 			for _, g := range guards {
@@ -666,19 +671,27 @@ func tokenEntryKeyAgreement(c *eng.Ctx, clause string) {
 	const ownNS = `call:vault.(*Core).NamespaceByID#0`
 	if f := c.Fn("vault.(*TokenStore).storeCommon"); f != nil {
 		c.Clause("R5", clause)
-		var puts []ssa.CallInstruction
-		for _, p := range eng.Calls(f, `\.Put$`) {
-			cc := p.Common()
-			if cc.IsInvoke() {
-				if rc, ok := cc.Value.(*ssa.Call); ok && strings.HasSuffix(eng.CalleeName(&rc.Call), "vault.(*TokenStore).idView") {
-					puts = append(puts, p)
-				}
+		// the write is located by what it is — a Put on a view built by idView — wherever it stands: in
+		// storeCommon, or in a closure / helper it calls with the view and the entry as arguments (props/c04follow.go)
+		type idPut struct {
+			at   ssa.Instruction
+			view *ssa.Call
+			ent  ssa.Value
+		}
+		var puts []idPut
+		for _, e := range nfEffs(nfViewOps(f, nil, "Put", `vault\.\(\*TokenStore\)\.idView$`)) {
+			rv, _ := nfResolveParam(e.Call.Recv, e.Fr)
+			view, ok := rv.(*ssa.Call)
+			at := nfChainInstr(e, f)
+			if !ok || at == nil || len(e.Call.Args) == 0 {
+				continue
 			}
+			ent, _ := nfResolveParam(e.Call.Args[len(e.Call.Args)-1], e.Fr)
+			puts = append(puts, idPut{at, view, ent})
 		}
 		if c.Floor(f, "write of the entry into the id view", len(puts), 1) {
-			for _, p := range puts {
-				cc := p.Common()
-				view := cc.Value.(*ssa.Call)
+			for _, pt := range puts {
+				p, view := pt.at, pt.view
 				nsArg := view.Call.Args[len(view.Call.Args)-1]
 				// (1) the view is the one of the entry's own namespace
 				site := "id view written is the one of the entry's own namespace"
@@ -698,7 +711,7 @@ func tokenEntryKeyAgreement(c *eng.Ctx, clause string) {
 				}
 				// (2) the key is the entry's id salted in that same namespace
 				site = "entry key is entry.ID salted in the entry's own namespace"
-				kv := eng.StructLitField(cc.Args[len(cc.Args)-1], "Key")
+				kv := eng.StructLitField(pt.ent, "Key")
 				if len(kv) == 0 {
 					c.Undecided(f, site, p.Pos(), "the storage entry written is not a local literal with a Key")
 					continue
